@@ -170,7 +170,8 @@ def build_goto(run, ob, odir):
     if trap:
         gb2 = os.path.join(odir, "all2.gb")
         rx = "^(" + "|".join(re.escape(t) for t in trap) + ")$"
-        r = sh(["goto-instrument", "--generate-function-body", rx, "--generate-function-body-options", "assert-false-assume-false", allgb, gb2], timeout=300)
+        mode = "nondet-return" if ob.get("nobody_mode") == "nondet" else "assert-false-assume-false"
+        r = sh(["goto-instrument", "--generate-function-body", rx, "--generate-function-body-options", mode, allgb, gb2], timeout=300)
         if r["rc"] != 0:
             raise RuntimeError("goto-instrument generate-function-body failed:\n" + (r["err"] + r["out"])[-3000:])
         return gb2
@@ -357,6 +358,17 @@ def write_replay(path, ob, prop, vals, failed):
             f.write("#   %s%s = %s\n" % (name, "" if idx < 0 else "[%d]" % idx, data))
 
 
+_hdr_cache = {}
+
+
+def is_data_symbol(name):
+    """heuristic: NAME is declared 'extern <type> NAME...;' without a parameter list in one of the repo headers"""
+    if "text" not in _hdr_cache:
+        import glob
+        _hdr_cache["text"] = "\n".join(open(h, encoding="latin-1").read() for h in glob.glob(os.path.join(REPO, "*.h")))
+    return re.search(r"extern[^;()]*[\s\*,]" + re.escape(name) + r"\s*(\[[^\]]*\])*\s*[,;]", _hdr_cache["text"]) is not None
+
+
 def build_native(run, ob, odir):
     sdir = os.path.join(odir, "src")
     if not os.path.isdir(sdir):
@@ -382,7 +394,13 @@ def build_native(run, ob, odir):
         with open(tf, "w") as f:
             f.write("#include <stdio.h>\n#include <stdlib.h>\n")
             for u in und:
-                f.write('void %s(void){ fprintf(stderr, "REPLAY-UNMODELLED-CALLEE %s\\n"); exit(98); }\n' % (u, u))
+                if is_data_symbol(u):
+                    # data object defined in a unit that is not linked: zero-initialised storage
+                    f.write('char %s[256] __attribute__((aligned(16)));\n' % u)
+                elif ob.get("nobody_mode") == "nondet":
+                    f.write('long %s(void){ return 0; }\n' % u)      # frame assumption: no effect, result unused/zero
+                else:
+                    f.write('void %s(void){ fprintf(stderr, "REPLAY-UNMODELLED-CALLEE %s\\n"); exit(98); }\n' % (u, u))
         extra.append(tf)
     if r["rc"] != 0:
         raise RuntimeError("native replay build failed:\n" + (r["err"] + r["out"])[-4000:])
@@ -432,6 +450,8 @@ def run_obligation(run, ob):
         ob = dict(ob)
         gb = build_goto(run, ob, odir)
         rec["trapped_bodyless"] = ob.get("_trapped", [])
+        if os.environ.get("VERIF_LINT"):
+            build_native(run, ob, odir)      # development aid: the native replay build must link (catches duplicate definitions goto-cc tolerates)
         if ob.get("unwind_fn"):
             ob["_unwind_fn_expanded"] = expand_unwind_fn(gb, ob["unwind_fn"])
         win, allr = run_cbmc_portfolio(ob, gb)
@@ -450,7 +470,7 @@ def run_obligation(run, ob):
         rec["witnesses"] = len(wit_ok)
         if wit_bad or (not wit_ok and not ob.get("no_witness")):
             rec["status"] = "broken"
-            rec["notes"].append("vacuity guard: witness not reachable: %s" % (wit_bad or "none declared"))
+            rec["notes"].append("vacuity guard: witness not reachable: %s; failed: %s" % (wit_bad or "none declared", [v.get("property") for v in viol][:4]))
             return rec
         expect = ob.get("expect_fail")
         if expect:
@@ -516,6 +536,19 @@ def run_obligation(run, ob):
 REPRODUCED = ("assert", "crash", "hang")
 
 
+def reproduced(v):
+    """a counterexample counts as reproduced only by the matching native outcome: a violated harness
+    assertion must fail natively as that kind of check, a memory/arithmetic fault must trap
+    (sanitizer/signal), an unwinding assertion must hang"""
+    pid = v.get("property", "")
+    got = v.get("replay")
+    if ".assertion." in pid:
+        return got == "assert"
+    if ".unwind." in pid or "recursion" in pid:
+        return got == "hang"
+    return got in ("crash", "assert")
+
+
 def load_known_findings():
     p = os.path.join(VERIF, "known_findings.jsonl")
     out = []
@@ -571,7 +604,7 @@ def run_property(prop, tier, obligations, meta):
                 r["kf"] = o.get("kf")
                 recs.append(r)
                 print("[%s] %-40s %-12s %6.1fs props=%d wit=%d %s" % (prop, r["name"], r["status"], r["wall"], r["props"],
-                                                                      r["witnesses"], "; ".join(r["notes"])[:600]), flush=True)
+                                                                      r["witnesses"], "; ".join(r["notes"])[:160].replace("\n", " ")), flush=True)
     finally:
         run.cleanup()
     # verdict
@@ -584,8 +617,8 @@ def run_property(prop, tier, obligations, meta):
         elif r["status"] == "kf-absent":
             lines.append("NOTE: known finding %s no longer reproduces on this tree" % r["kf"]["id"])
         elif r["status"] == "fail":
-            conf = [v for v in r["violations"] if v.get("replay") in REPRODUCED]
-            unconf = [v for v in r["violations"] if v.get("replay") not in REPRODUCED]
+            conf = [v for v in r["violations"] if reproduced(v)]
+            unconf = [v for v in r["violations"] if not reproduced(v)]
             for v in conf:
                 violations += 1
                 lines.append("VIOLATION property=%s replay=%s" % (prop, v["replay_file"]))
@@ -616,7 +649,7 @@ def write_evidence(prop, tier, seed, recs, meta, wall, violations):
     for r in recs[:]:
         samples.append(dict(harness=r["name"], status=r["status"], functions=r["functions"], bounds=r["bounds"],
                             cbmc_properties=r["props"], witnesses_reached=r["witnesses"], backend=r.get("backend_used"),
-                            solver_s=round(r.get("solver_s", 0), 1), cuts=r["cuts"], stubs=r["stubs"]))
+                            solver_s=round(r.get("solver_s", 0), 1), cuts=r["cuts"], stubs=r["stubs"], trapped_bodyless=r.get("trapped_bodyless", [])[:40]))
     funcs = sorted({f for r in recs for f in r["functions"]})
     units = sorted({u for r in recs for u in r["units"]})
     ev = dict(
